@@ -513,6 +513,45 @@ def mc_run(spec, cfg_text, workdir, tag, workers=8, timeout=3000, xmx="6g", want
                 wall=round(time.time() - t0, 1), out_tail=tail)
 
 
+def apalache_inductive(spec, n, workdir, tag, timeout=1800, mutate=None):
+    """Apalache on spec/<spec>.tla (typed): Init => IndInv (length 0) and IndInv /\\ Next => IndInv' (length 1, from an arbitrary state that
+    satisfies IndInv) with N = n.  Returns dict(ok, finished, wall...).  A timeout is reported as not finished, not as a failure."""
+    wd = os.path.join(workdir, "apa-" + tag)
+    shutil.rmtree(wd, ignore_errors=True)
+    os.makedirs(wd)
+    shutil.copy(os.path.join(SPEC, spec + ".tla"), wd)
+    if mutate:       # (selftest: a falsified action must break the inductive step)
+        txt = open(os.path.join(wd, spec + ".tla")).read()
+        assert mutate[0] in txt
+        with open(os.path.join(wd, spec + ".tla"), "w") as f:
+            f.write(txt.replace(mutate[0], mutate[1], 1))
+    root = "%sN%d" % (spec, n)
+    with open(os.path.join(wd, root + ".tla"), "w") as f:
+        f.write("---- MODULE %s ----\nEXTENDS %s\nCInitN == N = %d\n====\n" % (root, spec, n))
+    out = {"tool": "apalache-mc", "spec": spec, "N": n, "obligations": []}
+    t0 = time.time()
+    for name, args in (("Init => IndInv", ["--init=Init", "--inv=IndInv", "--length=0"]),
+                       ("IndInv /\\ Next => IndInv'", ["--init=IndInv", "--inv=IndInv", "--length=1"])):
+        t1 = time.time()
+        try:
+            p = subprocess.run(["apalache-mc", "check", "--cinit=CInitN", "--out-dir=" + os.path.join(wd, "out")] + args + [root + ".tla"], cwd=wd,
+                               stdout=subprocess.PIPE, stderr=subprocess.STDOUT, text=True, timeout=timeout)
+            res = "NoError" if "The outcome is: NoError" in p.stdout else ("Error" if "The outcome is: Error" in p.stdout else "tool-failure")
+            tail = p.stdout[-1500:]
+        except subprocess.TimeoutExpired:
+            res, tail = "timeout", ""
+        except FileNotFoundError:
+            res, tail = "not-installed", ""
+        out["obligations"].append({"obligation": name, "result": res, "wall": round(time.time() - t1, 1)})
+        if res in ("Error", "tool-failure"):
+            shutil.rmtree(wd, ignore_errors=True)
+            raise ToolError("Apalache: %s of %s (N=%d): %s\n%s" % (name, spec, n, res, tail))
+    shutil.rmtree(wd, ignore_errors=True)
+    out["ok"] = all(o["result"] == "NoError" for o in out["obligations"])
+    out["wall"] = round(time.time() - t0, 1)
+    return out
+
+
 def sweep_campaign(name, ranges, workdir, jvms=8):
     """C06: every sector count of the given ranges for default options through the boot-sector hook (`fxh fmtsweep`), run-length
     compressed into runs of equal layout; TLC (TraceFormat, fmtrun events) judges both ends of every run"""
